@@ -16,6 +16,7 @@ Abstract operations (all coordinates native millimetres):
   ('abs', bool) / ('unit', 'mm'|'in')    encoding switches (G90/G91, G21/G20)
   ('addregion', spec)             region added through the state while the program runs
 """
+import collections
 import math
 
 INCH = 25.4
@@ -265,12 +266,28 @@ def random_opts(r):
     }
 
 
+EXT_POOL = ["G4", "M204", "M205", "M117", "M73", "M106", "M107", "M400", "M900", "M104", "M84", "T0"]
+
+
+def random_ext(r):
+    k = r.random()
+    if k < 0.35:
+        return dict(DEFERRED_CFG)
+    if k < 0.45:
+        return {}
+    ext = collections.OrderedDict()
+    for code in EXT_POOL:
+        if r.random() < 0.6:
+            ext[code] = r.choice(["exclude", "first", "last", "merge", "merge"])
+    return ext
+
+
 def random_cfg(r, regions=None):
     cfg = {
         "g90e": r.random() < 0.3,
         "enter": r.choice([None, ["M117 entering"], ["M106 S0", "M117 in"]]),
         "exit": r.choice([None, ["M117 leaving"], ["M107", "M117 out"]]),
-        "ext": dict(DEFERRED_CFG) if r.random() < 0.8 else {},
+        "ext": random_ext(r),
         "regions": list(DEFAULT_REGIONS if regions is None else regions),
     }
     return cfg
